@@ -141,7 +141,7 @@ def classes(case):
 
 SUBS = [
     Sub("export", check, gen=lambda tier: S.model_specs(PROFILE, 1, 9).map(_unify_attr_types), nontrivial=nontrivial,
-        classes=classes, n={"quick": 300, "thorough": 4000},
+        classes=classes, n={"quick": 800, "thorough": 6000},
         essential=["rel:mutex", "rel:cardinal", "attrs", "attr-name-needs-quotes", "name-needs-quotes", "operator-word-name",
                    "op:XOR", "op:EQUIVALENCE", "op:EXCLUDES"]),
 ]
